@@ -1056,8 +1056,13 @@ class Process(StateMachine, persistence.Savable, metaclass=ProcessStateMachineMe
                         f'Full Traceback:\n{tb_str}'
                     ) from exc
                 else:
-                    while asyncio.isfuture(result):
-                        result = await result
+                    try:
+                        while asyncio.isfuture(result):
+                            result = await result
+                    except asyncio.CancelledError:
+                        # Not an `Exception`: report the cancellation instead of leaving the reply pending for ever
+                        kiwi_future.cancel()
+                        return
 
                     kiwi_future.set_result(result)
 
